@@ -355,7 +355,29 @@ fn call(c: &Case) -> Option<(Vec<Val>, u32)> {
     Some((res, st))
 }
 
+/// `twice <mode> <flags_in> S<op> args…`: the same call from a clear status word and from `flags_in`.
+/// Results: res0…, I<out0>, res1…, I<out1>.  (The judge compares; see `expect "twice"`.)
+fn call_twice(c: &Case) -> Option<(Vec<Val>, u32)> {
+    let name = match c.args.first() { Some(Val::S(b)) => String::from_utf8(b.clone()).ok()?, _ => return None };
+    let inner0 = Case { op: name.clone(), mode: c.mode, flags_in: 0, args: c.args[1..].to_vec() };
+    let inner1 = Case { op: name, mode: c.mode, flags_in: c.flags_in, args: c.args[1..].to_vec() };
+    let (r0, o0) = call(&inner0)?;
+    let (r1, o1) = call(&inner1)?;
+    let mut out = r0;
+    out.push(Val::I(o0 as i128));
+    out.extend(r1);
+    out.push(Val::I(o1 as i128));
+    Some((out, o1))
+}
+
 pub fn run(c: &Case) -> Outcome {
+    if c.op == "twice" {
+        return match catch_unwind(AssertUnwindSafe(|| call_twice(c))) {
+            Ok(Some((r, st))) => Outcome::Ok(r, st),
+            Ok(None) => Outcome::Unknown,
+            Err(_) => Outcome::Panic,
+        };
+    }
     match catch_unwind(AssertUnwindSafe(|| call(c))) {
         Ok(Some((r, st))) => Outcome::Ok(r, st),
         Ok(None) => Outcome::Unknown,
